@@ -50,6 +50,12 @@ def main():
         pc = kv.props_check(pid)
         if not pc["ok"]:
             broken.append(("proof", "Props/%s.v" % pid, pc["detail"][-2500:]))
+    if ok and pc["ok"] and tier == "thorough":
+        ck = kv.coqchk_props(pid)
+        log.append("coqchk Props/%s ok=%s axioms=%d" % (pid, ck["ok"], len(ck["axioms"])))
+        cov["coqchk"] = {"ok": ck["ok"], "axioms": ck["axioms"]}
+        if not ck["ok"]:
+            broken.append(("proof", "coqchk Props/%s" % pid, ck["detail"][-2500:]))
     n_thm = len(pc.get("theorems", []))
     cov["obligations"] = max(n_thm, 1)
     cov["discharged"] = n_thm if pc["ok"] else 0
